@@ -718,10 +718,12 @@ static void op_option(struct ctx *c)
         bool sa = z->type == T_SETATTR;
         if (set) {
             int dv = (sel >> 1) % 4;
-            struct uref *d = mk_dict(c, dv);
+            bool clear = (sel >> 3) % 8 == 7;          /* set_dict(NULL): no dictionary any more */
+            struct uref *d = clear ? NULL : mk_dict(c, dv);
             err = sa ? upipe_setattr_set_dict(z->upipe, d) : upipe_setflowdef_set_dict(z->upipe, d);
             uref_free(d);
-            snprintf(what, sizeof what, "%s.set_dict(v%d)", zoo[z->type].name, dv);
+            if (clear) { dv = -1; snprintf(what, sizeof what, "%s.set_dict(NULL)", zoo[z->type].name); }
+            else snprintf(what, sizeof what, "%s.set_dict(v%d)", zoo[z->type].name, dv);
             if (ubase_check(err)) { int before = outv(z); z->dictv = dv; if (outv(z) != before) z->sent_def = -1; } else c->classes |= 1u << CL_OPT_REJECTED;
         } else if (c->skip_getters) break;
         else {
@@ -737,6 +739,22 @@ static void op_option(struct ctx *c)
                 uref_free(want);
             }
             c->got_after_set = true;
+            /* setflowdef: the flow definition getter reports the input definition amended with the dictionary IN FORCE
+             * (upipe_setflowdef.h: "sets the dictionary to set ... on flow definitions"), not with one that was replaced or cleared */
+            /* (first pipe of the chain only: further down the input definition may already carry such attributes) */
+            if (!sa && z == &c->p[0] && z->has_def && !c->ret) {
+                struct uref *fd = NULL;
+                if (ubase_check(upipe_get_flow_def(z->upipe, &fd)) && fd != NULL) {
+                    uint64_t big = 0; const char *str = NULL; uint8_t small = 0;
+                    bool hb = ubase_check(uref_attr_get_unsigned(fd, &big, UDICT_TYPE_UNSIGNED, "x.big"));
+                    bool hs = ubase_check(uref_attr_get_string(fd, &str, UDICT_TYPE_STRING, "y.str"));
+                    bool hm = ubase_check(uref_attr_get_small_unsigned(fd, &small, UDICT_TYPE_SMALL_UNSIGNED, "x.small"));
+                    bool wb = z->dictv >= 1, ws = z->dictv >= 2, wm = z->dictv >= 3;
+                    if (hb != wb || hs != ws || hm != wm || (wb && big != 77 + (uint64_t)z->dictv))
+                        FAILP(ORACLE_OPTS, "get/setflowdef-flow-def", "setflowdef get_flow_def carries x.big=%s y.str=%s x.small=%s; the dictionary in force (%s) calls for x.big=%s y.str=%s x.small=%s",
+                              hb ? "yes" : "no", hs ? "yes" : "no", hm ? "yes" : "no", z->dictv < 0 ? "none" : "a variant", wb ? "yes" : "no", ws ? "yes" : "no", wm ? "yes" : "no");
+                }
+            }
         }
         break; }
     case T_MATCH_ATTR:
